@@ -135,6 +135,89 @@ def rangeGo (lo : Nat) : Nat → RangeAcc → RangeAcc
 def hex64 (x : UInt64) : String :=
   String.ofList ((List.range 16).map fun i => hexChar ((x.toNat / 16 ^ (15 - i)) % 16))
 
+/-! ### `huff encn`: the encoder on `count` copies of a unit, answered by arithmetic
+
+    The coded bytes are periodic (`8 / gcd(U, 8)` units, `U` = bits of the unit's coding, fill whole bytes), so
+    length, byte sum and tail follow from one period and the remainder.  Whether the real encoder gets that far
+    is the question of `Huffman.hencodeC`: the prediction evaluates the model's own `reserveC` / `vecPushes` at
+    the `put`s where `capacity() <= end_range.byte` (found by arithmetic, not by running 10^9 `put`s), with the
+    standard library's growth policy `Huffman.stdGrow` (the harness build has overflow checks on). -/
+
+def symBits (c : Nat) : Nat :=
+  match H3.Gen.HuffEnc.raw[c]? with
+  | some (n, _) => n
+  | none => 0
+
+/-- `p_0 = 0, p_1, …, p_m`: bits of the unit's coding before symbol `i` -/
+def prefixBits (unit : List Nat) : List Nat :=
+  (unit.foldl (fun (acc : List Nat × Nat) c => (acc.1 ++ [acc.2 + symBits c], acc.2 + symBits c)) ([0], 0)).1
+
+/-- the first `put` (global symbol index) whose `end_range.byte` reaches `cap` -/
+def nextReserve (cap U m : Nat) (p : List Nat) : Nat :=
+  (List.range m).foldl (fun best i =>
+    let need := 8 * cap - p.getD (i + 1) 0
+    let t := ((need + U - 1) / U) * m + i
+    if t < best then t else best) (2 ^ 200)
+
+/-- `true` = some reservation (or position) overflows before `count` symbols are written -/
+def encnOverflows (g : Bool) (U m count : Nat) (p : List Nat) : Nat → Nat → Bool
+  | 0, _ => false
+  | fuel+1, cap =>
+    let t := nextReserve cap U m p
+    if t ≥ count then false
+    else
+      let before := (t / m) * U + p.getD (t % m) 0
+      let after := (t / m) * U + p.getD (t % m + 1) 0
+      let b := after / 8
+      let len := (before + 7) / 8
+      if b ≥ 2 ^ 32 then true
+      else
+        match Huffman.reserveC g Huffman.stdGrow cap len b with
+        | none => true
+        | some cap' =>
+          encnOverflows g U m count p fuel
+            (Huffman.vecPushes Huffman.stdGrow (b - len + (if after % 8 > 0 then 1 else 0)) cap' len)
+
+/-- `buffer_pos.byte` when the last `put` starts -/
+def encnLastPutByte (unit : List Nat) (U m count : Nat) (p : List Nat) : Nat :=
+  if count < 2 then 0
+  else
+    let t := count - 1
+    let before := (t / m) * U + p.getD (t % m) 0
+    let prev := symBits (unit.getD ((t - 1) % m) 0)
+    (before - (if prev % 8 = 0 then 8 else prev % 8)) / 8
+
+def encnOk (enc : List Nat → List Nat) (unit : List Nat) (U count : Nat) : String :=
+  let k := 8 / Nat.gcd U 8
+  let period := enc (List.replicate k unit).flatten
+  let q := count / k
+  let last := enc (List.replicate (count % k) unit).flatten
+  let len := q * period.length + last.length
+  let sum := q * period.sum + last.sum
+  let ctx := (List.replicate (min q 4) period).flatten ++ last
+  s!"ok len={len} sum={sum} tail={toHex (ctx.drop (ctx.length - 4))}"
+
+def handleEncn (unit : List Nat) (count : Nat) : String :=
+  let m := unit.length
+  let p := prefixBits unit
+  let U := p.getD m 0
+  if m = 0 ∨ count = 0 then "ok len=0 sum=0 tail=- ## ok len=0 sum=0 tail=-"
+  else if unit.any (· ≥ 256) then "bad-op"
+  else
+    let g := H3.Gen.HuffEnc.hugeCodingRefused
+    let L := (count * U + 7) / 8
+    let model :=
+      if g then
+        if encnLastPutByte unit U m count p > 2 ^ 32 - 1 - 8 then "err HuffmanEncoding"
+        else encnOk Huffman.hencode unit U count
+      else if encnOverflows g U m count p 400 0 || decide ((count * U) / 8 ≥ 2 ^ 32) then "panic #D-15e"
+      else encnOk Huffman.hencode unit U count
+    -- the specification: the RFC 7541 §5.2 coding; a refusal is admitted only for codings that do not fit a
+    -- 32-bit byte position (reading R-15e); never a panic
+    let spec := encnOk Spec.Huffman.specEncode unit U count ++
+      (if L + 8 ≥ 2 ^ 32 then " || err HuffmanEncoding" else "")
+    model ++ " ## " ++ spec
+
 def handleHuff : List String → String
   | ["huff", "dec", h] =>
     match parseHex h with
@@ -148,6 +231,10 @@ def handleHuff : List String → String
         | some w => s!"ok {toHex w} rt {huffDecModel w}"
       m ++ " ## " ++ s!"ok {toHex (Spec.Huffman.specEncode s)} rt ok {toHex s}"
     | none => "bad-op"
+  | ["huff", "encn", h, c] =>
+    match parseHex h, c.toNat? with
+    | some unit, some count => handleEncn unit count
+    | _, _ => "bad-op"
   | ["huff", "decn", h, c] =>
     -- a Huffman literal of `c` copies of the unit `h` (inputs too long for a case line).  The model runs the
     -- short ones; from `8·len + 16 ≥ 2^32` on it answers without building the list: the repaired
